@@ -25,8 +25,8 @@ theorem priority_total_antisymmetric (a b : Blk) (h : a.hash ≠ b.hash) :
     (higherPriority a b ≠ .ok ∧ higherPriority b a = .ok) := by
   simp only [ne_eq]
   rw [hp_ok_iff a b, hp_ok_iff b a]
-  rcases bytesLt_total a.hash b.hash h with hl | hl
-  · have hn := bytesLt_asymm _ _ hl
+  rcases bytesLt_total_x a.hash b.hash h with hl | hl
+  · have hn := bytesLt_asymm_x _ _ hl
     by_cases h1 : prodL b a < prodL a b
     · left; refine ⟨Or.inl h1, ?_⟩; rintro (h2 | ⟨h2, _⟩) <;> omega
     · by_cases h2 : prodL a b = prodL b a
@@ -38,7 +38,7 @@ theorem priority_total_antisymmetric (a b : Blk) (h : a.hash ≠ b.hash) :
         rintro (h3 | ⟨h3, _⟩)
         · exact h1 h3
         · exact h2 h3
-  · have hn := bytesLt_asymm _ _ hl
+  · have hn := bytesLt_asymm_x _ _ hl
     by_cases h1 : prodL a b < prodL b a
     · right; refine ⟨?_, Or.inl h1⟩; rintro (h2 | ⟨h2, _⟩) <;> omega
     · by_cases h2 : prodL a b = prodL b a
@@ -59,7 +59,7 @@ theorem priority_antisymm (a b : Blk) (h : higherPriority a b = .ok) : higherPri
   · rcases h with h | ⟨h, _⟩ <;> omega
   · rcases h with h | ⟨_, h⟩
     · omega
-    · rw [bytesLt_asymm _ _ h] at h3; cases h3
+    · rw [bytesLt_asymm_x _ _ h] at h3; cases h3
 
 /-- irreflexive; more generally a block never displaces a block with the same hash and the same plasma fields
     (the plasma fields are not covered by the hash; for user blocks they are recomputed from hashed fields, so an
@@ -67,7 +67,7 @@ theorem priority_antisymm (a b : Blk) (h : higherPriority a b = .ok) : higherPri
 theorem priority_irrefl (a b : Blk) (h : a.hash = b.hash) (ht : a.total = b.total) (hb : a.base = b.base) :
     higherPriority a b = .hashTieBreak := by
   unfold higherPriority
-  simp [h, ht, hb, bytesLt_irrefl]
+  simp [h, ht, hb, bytesLt_irrefl_x]
 
 /-- the rule as the statement words it — "higher plasma ratio, then smaller hash" — for the plasma values accepted
     blocks carry; ratios are compared by cross-multiplication over unbounded naturals -/
@@ -108,7 +108,7 @@ theorem priority_trans (a b c : Blk) (ha : Small a) (hb : Small b) (hc : Small c
     · left; intro hca
       exact h2 (geR_trans c a b za hca h1a)
     · right
-      exact ⟨geR_trans a b c zb h1a h2a, geR_trans c b a zb h2b h1b, bytesLt_trans _ _ _ h1c h2c⟩
+      exact ⟨geR_trans a b c zb h1a h2a, geR_trans c b a zb h2b h1b, bytesLt_trans_x _ _ _ h1c h2c⟩
 
 /-- blocks of embedded addresses carry no plasma (enoughPlasma returns before setting the fields,
     GetBasePlasmaForAccountBlock = 0): among them the rule is the hash order -/
@@ -127,7 +127,7 @@ theorem priority_trans_uniform (l : List Blk) (hs : ∀ x ∈ l, Small x) (hu : 
   rcases hu with hu | hu
   · exact priority_trans a b c (hs a ha) (hs b hb) (hs c hc) (hu a ha) (hu b hb) (hu c hc) h1 h2
   · rw [priority_zero_plasma _ _ (hu _ ‹_›) (hu _ ‹_›)] at h1 h2 ⊢
-    exact bytesLt_trans _ _ _ h1 h2
+    exact bytesLt_trans_x _ _ _ h1 h2
 
 /-- negative witness (zero BasePlasma): a block with TotalPlasma = BasePlasma = 0 ties with every ratio, so among
     mixed competitors the rule is cyclic: a beats z by hash, z beats c by hash, c beats a by ratio. All values are in
